@@ -84,9 +84,16 @@ def extra(stats, tier, seed):
     from more_executors.futures import f_zip, f_sequence, f_traverse, f_return, f_return_error
     rng = random.Random(seed + 5)
 
+    import drive
+    known_patterns = set(k["pattern"] for k in drive.load_known(PROP))
+
     def viol(what, pattern, detail=None):
-        stats.violations.append({"what": what, "pattern": pattern, "detail": detail,
-                                 "case": {"params": {}, "chooser": "none", "cseed": 0, "origin": "api"}})
+        v = {"what": what, "pattern": pattern, "detail": detail,
+             "case": {"params": {}, "chooser": "none", "cseed": 0, "origin": "api"}}
+        if pattern in known_patterns:
+            stats.known.setdefault(pattern, v)
+        else:
+            stats.violations.append(v)
     with det.atomic():
         for n in [0, 1, 2, 19, 20, 21, 300] + [rng.randint(0, 40) for _ in range(10 if tier == "quick" else 200)]:
             fs = [Future() for _ in range(n)]
@@ -135,6 +142,34 @@ def extra(stats, tier, seed):
                     viol("f_traverse called fn with %s (fn raises at %s)" % (calls, bad), "traverse:calls", xs)
                 if out._state != "FINISHED" or out._exception is not badexc:
                     viol("f_traverse: exception of fn not propagated", "traverse:fault", xs)
+            # cancellation through f_sequence / f_traverse: an input cancelled first cancels the output; cancelling the
+            # output requests cancellation of every pending input
+            if n >= 1:
+                for maker, nm in ((lambda fs: f_sequence(fs), "sequence"), (lambda fs: f_traverse(lambda f: f, fs), "traverse")):
+                    fs = [Future() for _ in range(n)]
+                    o = maker(fs)
+                    k = rng.randrange(n)
+                    for i in range(n):
+                        if i != k and rng.random() < 0.4:
+                            fs[i].set_result(i)
+                    if fs[k].done():
+                        continue
+                    fs[k].cancel()
+                    stats.add([[n, k, 77]], True, None, ["api:%s-input-cancel" % nm])
+                    if not o.cancelled():
+                        viol("f_%s: input %d of %d cancelled first, output is %s instead of cancelled" % (nm, k, n, o._state),
+                             "%s:pending-after-input-cancel" % nm, n)
+                    fs = [Future() for _ in range(n)]
+                    o = maker(fs)
+                    donei = [i for i in range(n) if rng.random() < 0.3 and i != 0]
+                    for i in donei:
+                        fs[i].set_result(i)
+                    r = o.cancel()
+                    stats.add([[n, 78] + donei], True, None, ["api:%s-output-cancel" % nm])
+                    left = [i for i in range(n) if i not in donei and not fs[i].cancelled()]
+                    if left or r is not True or not o.cancelled():
+                        viol("f_%s: cancel() of the output returned %r, output %s, pending inputs %s never cancelled" % (nm, r, o._state, left),
+                             "%s:output-cancel" % nm, n)
             ys = [f_return(i) for i in range(n)]
             s = f_sequence(ys)
             if s.result(0) != list(range(n)) or type(s.result(0)) is not list:
